@@ -1,6 +1,7 @@
 from abc import ABC, abstractmethod
 import getpass
 import sys, os, pickle
+from io import BytesIO
 import tempfile
 import types
 import re
@@ -376,11 +377,16 @@ class Lark(Serialize, Generic[_Return_T]):
                         for name in (set(options) - _LOAD_ALLOWED_OPTIONS):
                             del options[name]
                         file_sha256 = f.readline().rstrip(b'\n')
-                        cached_used_files = pickle.load(f)
-                        if file_sha256 == cache_sha256.encode('utf8') and verify_used_files(cached_used_files):
-                            cached_parser_data = pickle.load(f)
-                            self._load(cached_parser_data, **options)
-                            return
+                        body_sha256 = f.readline().rstrip(b'\n')
+                        body = f.read()
+                        # The second line protects the rest of the file, so that a damaged file is never loaded
+                        if file_sha256 == cache_sha256.encode('utf8') and body_sha256 == sha256_digest(body.decode('latin-1')).encode('utf8'):
+                            body_f = BytesIO(body)
+                            cached_used_files = pickle.load(body_f)
+                            if verify_used_files(cached_used_files):
+                                cached_parser_data = pickle.load(body_f)
+                                self._load(cached_parser_data, **options)
+                                return
                 except FileNotFoundError:
                     # The cache file doesn't exist; parse and compose the grammar as normal
                     pass
@@ -489,9 +495,13 @@ class Lark(Serialize, Generic[_Return_T]):
             try:
                 with FS.open(cache_fn, 'wb') as f:
                     assert cache_sha256 is not None
+                    body_f = BytesIO()
+                    pickle.dump(used_files, body_f)
+                    self.save(body_f, _LOAD_ALLOWED_OPTIONS)
+                    body = body_f.getvalue()
                     f.write(cache_sha256.encode('utf8') + b'\n')
-                    pickle.dump(used_files, f)
-                    self.save(f, _LOAD_ALLOWED_OPTIONS)
+                    f.write(sha256_digest(body.decode('latin-1')).encode('utf8') + b'\n')
+                    f.write(body)
             except IOError as e:
                 logger.exception("Failed to save Lark to cache: %r.", cache_fn, e)
 
